@@ -12,6 +12,18 @@ use std::{cell::Cell, sync::atomic::Ordering, time::Instant};
 thread_local! {
     static CLOCK: Cell<Option<fn() -> Instant>> = const { Cell::new(None) };
     static YIELD: Cell<Option<fn(&'static str)>> = const { Cell::new(None) };
+    static SPAN_IDS: Cell<Option<fn() -> u64>> = const { Cell::new(None) };
+}
+
+/// Installs (or removes) the source of fresh span ids used by this thread in place of
+/// `rand::thread_rng()`, so that the sizes of encoded messages are reproducible.
+pub fn set_span_ids(f: Option<fn() -> u64>) {
+    SPAN_IDS.with(|c| c.set(f));
+}
+
+/// A fresh span id from the installed source, if any.
+pub fn span_id() -> Option<u64> {
+    SPAN_IDS.with(|c| c.get()).map(|f| f())
 }
 
 /// Installs (or removes) the clock used by this thread in place of `Instant::now()`.
